@@ -238,28 +238,32 @@ pub proof fn lemma_disjoint(s0: St, a: PathV, d0: PathV, x: PathV)
         }
     }
 }
-// one relocation step on the abstract state (destination different from the source and free)
-pub proof fn lemma_state_step(s0: St, a: PathV, d0: PathV, done: Set<PathV>, st1: St, st2: St, p: PathV)
-    requires
-        wf(s0), s0.entries.contains_key(a), a.len() > 0, d0.len() > 0, d0 != a, free_below(s0, d0), !(in_sub(a, d0) && d0 != a),
-        s0.entries.contains_key(d0.drop_last()) && s0.entries[d0.drop_last()].dir,
-        done_ok(s0, a, done), state_after(st1, s0, a, d0, done),
-        in_sub(a, p), s0.entries.contains_key(p), !done.contains(p), (p != a ==> done.contains(p.drop_last())),
-        ({
-            let q = reloc(a, d0, p);
-            let e1 = st1.entries.remove(p).insert(q, moved(s0.entries[p], q));
-            let pa = a.drop_last();
-            let pd = d0.drop_last();
-            &&& st2.cwd == st1.cwd && st2.cwd_ok == st1.cwd_ok
-            &&& st2.files =~= (if st1.files.contains_key(p) { st1.files.remove(p).insert(q, st1.files[p]) } else { st1.files.remove(q) })
-            &&& (p != a ==> st2.entries =~= e1)
-            &&& (p == a ==> st2.entries =~= e1.insert(pa, del_kid(e1[pa], a.last())).insert(pd, add_kid(e1.insert(pa, del_kid(e1[pa], a.last()))[pd], d0.last())))
-        }),
-    ensures state_after(st2, s0, a, d0, done.insert(p))
-{
-    reveal(state_after); reveal(done_ok);
+// one relocation step on the abstract state (destination different from the source and free); per-key lemmas keep each query small
+pub open spec fn step_rel(s0: St, a: PathV, d0: PathV, st1: St, st2: St, p: PathV) -> bool {
     let q = reloc(a, d0, p);
-    let d2 = done.insert(p);
+    let e1 = st1.entries.remove(p).insert(q, moved(s0.entries[p], q));
+    let pa = a.drop_last();
+    let pd = d0.drop_last();
+    &&& st2.cwd == st1.cwd && st2.cwd_ok == st1.cwd_ok
+    &&& st2.files =~= (if st1.files.contains_key(p) { st1.files.remove(p).insert(q, st1.files[p]) } else { st1.files.remove(q) })
+    &&& (p != a ==> st2.entries =~= e1)
+    &&& (p == a ==> st2.entries =~= e1.insert(pa, del_kid(e1[pa], a.last())).insert(pd, add_kid(e1.insert(pa, del_kid(e1[pa], a.last()))[pd], d0.last())))
+}
+pub open spec fn step_geom(s0: St, a: PathV, d0: PathV, done: Set<PathV>, p: PathV) -> bool {
+    &&& wf(s0) && s0.entries.contains_key(a) && a.len() > 0 && d0.len() > 0 && d0 != a && free_below(s0, d0) && !(in_sub(a, d0) && d0 != a)
+    &&& s0.entries.contains_key(d0.drop_last()) && s0.entries[d0.drop_last()].dir
+    &&& in_sub(a, p) && s0.entries.contains_key(p) && !done.contains(p) && (p != a ==> done.contains(p.drop_last()))
+}
+pub proof fn lemma_step_geom(s0: St, a: PathV, d0: PathV, done: Set<PathV>, p: PathV)
+    requires step_geom(s0, a, d0, done, p)
+    ensures ({
+        let q = reloc(a, d0, p); let pa = a.drop_last(); let pd = d0.drop_last();
+        &&& !in_sub(d0, p) && in_sub(d0, q) && a + q.skip(d0.len() as int) =~= p
+        &&& !in_sub(a, pa) && !in_sub(d0, pd) && !in_sub(a, pd) && !in_sub(d0, pa)
+        &&& in_sub(a, a) && p.len() >= a.len()
+    })
+{
+    let q = reloc(a, d0, p);
     let pa = a.drop_last();
     let pd = d0.drop_last();
     lemma_disjoint(s0, a, d0, p);
@@ -271,27 +275,63 @@ pub proof fn lemma_state_step(s0: St, a: PathV, d0: PathV, done: Set<PathV>, st1
     assert(!in_sub(d0, pd));
     assert(!in_sub(a, pd)) by { if in_sub(a, pd) { assert(d0.take(a.len() as int) =~= pd.take(a.len() as int)); assert(in_sub(a, d0)); } }
     assert(!in_sub(d0, pa)) by { if in_sub(d0, pa) { assert(a.take(d0.len() as int) =~= pa.take(d0.len() as int)); assert(in_sub(d0, a)); } }
+}
+pub proof fn lemma_state_step_ent(s0: St, a: PathV, d0: PathV, done: Set<PathV>, st1: St, st2: St, p: PathV, k: PathV)
+    requires
+        step_geom(s0, a, d0, done, p), step_rel(s0, a, d0, st1, st2, p),
+        ent_of(st1, k) == ent_after(s0, a, d0, done, k),
+        ent_of(st1, a.drop_last()) == ent_after(s0, a, d0, done, a.drop_last()),
+        ent_of(st1, d0.drop_last()) == ent_after(s0, a, d0, done, d0.drop_last()),
+    ensures ent_of(st2, k) == ent_after(s0, a, d0, done.insert(p), k)
+{
+    let q = reloc(a, d0, p);
+    lemma_step_geom(s0, a, d0, done, p);
     assert(entry_ok(s0, a));
+    if in_sub(d0, k) {
+        let m = a + k.skip(d0.len() as int);
+        if k == q { } else {
+            // a different destination key comes from a different source node
+            if m == p { assert(d0 + m.skip(a.len() as int) =~= k) by { assert(m.skip(a.len() as int) =~= k.skip(d0.len() as int)); assert(d0 + k.skip(d0.len() as int) =~= k); } }
+        }
+    } else if in_sub(a, k) {
+    } else { }
+}
+pub proof fn lemma_state_step_file(s0: St, a: PathV, d0: PathV, done: Set<PathV>, st1: St, st2: St, p: PathV, k: PathV)
+    requires
+        step_geom(s0, a, d0, done, p), step_rel(s0, a, d0, st1, st2, p),
+        file_of(st1, k) == file_after(s0, a, d0, done, k),
+        file_of(st1, p) == file_after(s0, a, d0, done, p),
+    ensures file_of(st2, k) == file_after(s0, a, d0, done.insert(p), k)
+{
+    let q = reloc(a, d0, p);
+    lemma_step_geom(s0, a, d0, done, p);
+    if in_sub(d0, k) {
+        let m = a + k.skip(d0.len() as int);
+        if k != q && m == p { assert(m.skip(a.len() as int) =~= k.skip(d0.len() as int)); assert(d0 + k.skip(d0.len() as int) =~= k); }
+    }
+}
+pub proof fn lemma_state_step(s0: St, a: PathV, d0: PathV, done: Set<PathV>, st1: St, st2: St, p: PathV)
+    requires
+        wf(s0), s0.entries.contains_key(a), a.len() > 0, d0.len() > 0, d0 != a, free_below(s0, d0), !(in_sub(a, d0) && d0 != a),
+        s0.entries.contains_key(d0.drop_last()) && s0.entries[d0.drop_last()].dir,
+        done_ok(s0, a, done), state_after(st1, s0, a, d0, done),
+        in_sub(a, p), s0.entries.contains_key(p), !done.contains(p), (p != a ==> done.contains(p.drop_last())),
+        step_rel(s0, a, d0, st1, st2, p),
+    ensures state_after(st2, s0, a, d0, done.insert(p))
+{
+    reveal(state_after);
+    let d2 = done.insert(p);
+    assert(step_geom(s0, a, d0, done, p));
     assert forall|k: PathV| #[trigger] ent_of(st2, k) == ent_after(s0, a, d0, d2, k) by {
         assert(ent_of(st1, k) == ent_after(s0, a, d0, done, k));
-        assert(ent_of(st1, pa) == ent_after(s0, a, d0, done, pa));
-        assert(ent_of(st1, pd) == ent_after(s0, a, d0, done, pd));
-        if in_sub(d0, k) {
-            let m = a + k.skip(d0.len() as int);
-            if k == q { } else {
-                // a different destination key comes from a different source node
-                if m == p { assert(d0 + m.skip(a.len() as int) =~= k) by { assert(m.skip(a.len() as int) =~= k.skip(d0.len() as int)); assert(d0 + k.skip(d0.len() as int) =~= k); } }
-            }
-        } else if in_sub(a, k) {
-        } else { }
+        assert(ent_of(st1, a.drop_last()) == ent_after(s0, a, d0, done, a.drop_last()));
+        assert(ent_of(st1, d0.drop_last()) == ent_after(s0, a, d0, done, d0.drop_last()));
+        lemma_state_step_ent(s0, a, d0, done, st1, st2, p, k);
     }
     assert forall|k: PathV| #[trigger] file_of(st2, k) == file_after(s0, a, d0, d2, k) by {
         assert(file_of(st1, k) == file_after(s0, a, d0, done, k));
         assert(file_of(st1, p) == file_after(s0, a, d0, done, p));
-        if in_sub(d0, k) {
-            let m = a + k.skip(d0.len() as int);
-            if k != q && m == p { assert(m.skip(a.len() as int) =~= k.skip(d0.len() as int)); assert(d0 + k.skip(d0.len() as int) =~= k); }
-        }
+        lemma_state_step_file(s0, a, d0, done, st1, st2, p, k);
     }
 }
 pub proof fn lemma_init(s0: St, a: PathV, d0: PathV, ps: Seq<PathBuf>)
@@ -405,6 +445,9 @@ pub proof fn lemma_final(s0: St, a: PathV, done: Set<PathV>, ps: Seq<PathBuf>)
 //@ obligation lemma_final props=C09,C01
 //@ obligation lemma_disjoint props=C09,C01
 //@ obligation lemma_state_step props=C09,C01
+//@ obligation lemma_step_geom props=C09,C01
+//@ obligation lemma_state_step_ent props=C09,C01
+//@ obligation lemma_state_step_file props=C09,C01
 //@ obligation lemma_sub_basics props=C09,C01
 //@ obligation lemma_sub_trans props=C09,C01
 //@ obligation lemma_step_pending props=C09,C01
